@@ -1,17 +1,19 @@
 (** C20 — the property's sentences as corollaries of [load_meets_spec], and the
     witnesses of the recorded findings. *)
 From HV Require Import Base.Prelude C20.Model C20.Spec C20.Facts C20.MergeProofs C20.ConvertProofs
-  C20.NodeAlg C20.TrieProofs C20.UnflattenProofs C20.EnvProofs C20.LoadProofs.
+  C20.NodeAlg C20.TrieProofs C20.UnflattenProofs C20.EnvProofs C20.LoadProofs C20.LoadFixedProofs.
 From Coq Require Import Permutation.
 
 Definition perm_fun (sh : nat -> list (key * cfg) -> list (key * cfg)) : Prop :=
   forall site l, Permutation (sh site l) l.
 
-(** the property's domain for one load, outside the shapes of the open findings *)
-Definition domain (to_real : string -> cfg) (pfx : string) (d f : list (key * cfg))
+(** the property's domain for one load, outside the shapes of the open findings.
+    [fix3] = the repair of C20-F3 is in the code (true for /repo since 0f39207):
+    then nothing is required about variables addressing the same nested list *)
+Definition domain (fix3 : bool) (to_real : string -> cfg) (pfx : string) (d f : list (key * cfg))
            (env : list (string * string)) (tenv : list (path * string)) : Prop :=
   typed_env to_real (norm_env pfx env) = Some tenv /\ in_scope d f tenv /\
-  guard_F3 (norm_env pfx env) = false /\ guard_F4 (norm_env pfx env) = false.
+  (fix3 = true \/ guard_F3 (norm_env pfx env) = false) /\ guard_F4 (norm_env pfx env) = false.
 
 (* ------------------------------------------------------------------ permutations of the environment *)
 
@@ -88,16 +90,16 @@ Proof.
   congruence.
 Qed.
 
-Lemma domain_perm to_real pfx d f env env' tenv :
-  Permutation env env' -> domain to_real pfx d f env tenv ->
-  exists tenv', Permutation tenv tenv' /\ domain to_real pfx d f env' tenv'.
+Lemma domain_perm fix3 to_real pfx d f env env' tenv :
+  Permutation env env' -> domain fix3 to_real pfx d f env tenv ->
+  exists tenv', Permutation tenv tenv' /\ domain fix3 to_real pfx d f env' tenv'.
 Proof.
   intros P (H1 & H2 & H3 & H4).
   assert (Pn := norm_env_perm pfx env env' P).
   destruct (typed_env_perm to_real _ _ _ H1 Pn) as (tenv' & Ht & Pt).
   exists tenv'. split; [assumption|]. unfold domain. splits; auto.
   - eapply in_scope_perm; eassumption.
-  - eapply guard_F3_perm; eassumption.
+  - destruct H3 as [H3|H3]; [left; assumption | right; eapply guard_F3_perm; eassumption].
   - eapply guard_F4_perm; eassumption.
 Qed.
 
@@ -127,30 +129,32 @@ Qed.
 (* ------------------------------------------------------------------ the property's sentences *)
 
 Theorem load_meets_spec_domain :
-  forall sh to_real pfx d f env tenv,
-    perm_fun sh -> domain to_real pfx d f env tenv ->
-    exists t, load sh to_real false false pfx d (Some f) env = Ok t /\ Tidy (Map t) /\
+  forall sh fix3 to_real pfx d f env tenv,
+    perm_fun sh -> domain fix3 to_real pfx d f env tenv ->
+    exists t, load sh to_real fix3 false pfx d (Some f) env = Ok t /\ Tidy (Map t) /\
               forall p, view p (Map t) = spec_view d f tenv p.
 Proof.
-  intros sh to_real pfx d f env tenv Hs (H1 & H2 & H3 & H4). apply load_meets_spec; assumption.
+  intros sh fix3 to_real pfx d f env tenv Hs (H1 & H2 & H3 & H4). destruct fix3.
+  - apply load_meets_spec_fixed; assumption.
+  - destruct H3 as [H3|H3]; [discriminate|]. apply load_meets_spec; assumption.
 Qed.
 
 (** "the result does not depend on the order in which environment variables are
     enumerated" — nor on the iteration order of any Go map on the way *)
 Theorem env_order_independent :
-  forall sh sh' to_real pfx d f env env' tenv,
+  forall sh sh' fix3 to_real pfx d f env env' tenv,
     perm_fun sh -> perm_fun sh' -> Permutation env env' ->
-    domain to_real pfx d f env tenv ->
-    exists t t', load sh to_real false false pfx d (Some f) env = Ok t /\
-                 load sh' to_real false false pfx d (Some f) env' = Ok t' /\
+    domain fix3 to_real pfx d f env tenv ->
+    exists t t', load sh to_real fix3 false pfx d (Some f) env = Ok t /\
+                 load sh' to_real fix3 false pfx d (Some f) env' = Ok t' /\
                  Tidy (Map t) /\ Tidy (Map t') /\
                  forall p, view p (Map t) = view p (Map t').
 Proof.
-  intros sh sh' to_real pfx d f env env' tenv Hs Hs' P D.
-  destruct (domain_perm _ _ _ _ _ _ _ P D) as (tenv' & Pt & D').
-  destruct D as (H1 & H2 & H3 & H4). destruct D' as (H1' & H2' & H3' & H4').
-  destruct (load_meets_spec sh Hs to_real pfx d f env tenv H1 H2 H3 H4) as (t & Ht & Tt & Vt).
-  destruct (load_meets_spec sh' Hs' to_real pfx d f env' tenv' H1' H2' H3' H4') as (t' & Ht' & Tt' & Vt').
+  intros sh sh' fix3 to_real pfx d f env env' tenv Hs Hs' P D.
+  destruct (domain_perm _ _ _ _ _ _ _ _ P D) as (tenv' & Pt & D').
+  destruct (load_meets_spec_domain sh fix3 to_real pfx d f env tenv Hs D) as (t & Ht & Tt & Vt).
+  destruct (load_meets_spec_domain sh' fix3 to_real pfx d f env' tenv' Hs' D') as (t' & Ht' & Tt' & Vt').
+  destruct D as (H1 & H2 & H3 & H4).
   exists t, t'. splits; auto.
   intro p. rewrite Vt, Vt'. unfold spec_view. f_equal. eapply env_view_perm; eassumption.
 Qed.
@@ -189,13 +193,14 @@ Qed.
     every variable's value is what the result shows at the variable's path,
     whatever file and defaults say there *)
 Theorem env_wins_per_leaf :
-  forall sh to_real pfx d f env tenv,
-    perm_fun sh -> domain to_real pfx d f env tenv ->
-    exists t, load sh to_real false false pfx d (Some f) env = Ok t /\
+  forall sh fix3 to_real pfx d f env tenv,
+    perm_fun sh -> domain fix3 to_real pfx d f env tenv ->
+    exists t, load sh to_real fix3 false pfx d (Some f) env = Ok t /\
               forall e, In e tenv -> view (fst e) (Map t) = NLeaf (snd e).
 Proof.
-  intros sh to_real pfx d f env tenv Hs (H1 & H2 & H3 & H4).
-  destruct (load_meets_spec sh Hs to_real pfx d f env tenv H1 H2 H3 H4) as (t & Ht & Tt & Vt).
+  intros sh fix3 to_real pfx d f env tenv Hs D.
+  destruct (load_meets_spec_domain sh fix3 to_real pfx d f env tenv Hs D) as (t & Ht & Tt & Vt).
+  destruct D as (H1 & H2 & H3 & H4).
   exists t. split; [assumption|]. intros e Hin. rewrite Vt. unfold spec_view.
   rewrite (env_view_leaf d f tenv e H2 Hin).
   destruct (njoin (view (fst e) (Map d)) (view (fst e) (Map f))); reflexivity.
@@ -205,15 +210,16 @@ Qed.
     environment is silent the file's node shows, where both are silent the
     default's *)
 Theorem defaults_fill :
-  forall sh to_real pfx d f env tenv,
-    perm_fun sh -> domain to_real pfx d f env tenv ->
-    exists t, load sh to_real false false pfx d (Some f) env = Ok t /\
+  forall sh fix3 to_real pfx d f env tenv,
+    perm_fun sh -> domain fix3 to_real pfx d f env tenv ->
+    exists t, load sh to_real fix3 false pfx d (Some f) env = Ok t /\
               forall p, env_view tenv p = NNone ->
                         view p (Map t) = njoin (view p (Map d)) (view p (Map f)) /\
                         (view p (Map f) = NNone -> view p (Map t) = view p (Map d)).
 Proof.
-  intros sh to_real pfx d f env tenv Hs (H1 & H2 & H3 & H4).
-  destruct (load_meets_spec sh Hs to_real pfx d f env tenv H1 H2 H3 H4) as (t & Ht & Tt & Vt).
+  intros sh fix3 to_real pfx d f env tenv Hs D.
+  destruct (load_meets_spec_domain sh fix3 to_real pfx d f env tenv Hs D) as (t & Ht & Tt & Vt).
+  destruct D as (H1 & H2 & H3 & H4).
   exists t. split; [assumption|]. intros p He. rewrite Vt. unfold spec_view. rewrite He.
   rewrite njoin_none_r. split; [reflexivity|]. intros ->. apply njoin_none_r.
 Qed.
@@ -234,18 +240,19 @@ Definition split_of (c f : list (key * cfg)) (tenv : list (path * string)) : Pro
   forall p, njoin (view p (Map f)) (env_view tenv p) = view p (Map c).
 
 Theorem file_env_equivalent :
-  forall sh sh' to_real pfx d c f env tenv,
+  forall sh sh' fix3 to_real pfx d c f env tenv,
     perm_fun sh -> perm_fun sh' ->
-    domain to_real pfx d f env tenv -> domain to_real pfx d c [] [] ->
+    domain fix3 to_real pfx d f env tenv -> domain fix3 to_real pfx d c [] [] ->
     split_of c f tenv ->
-    exists t t', load sh to_real false false pfx d (Some f) env = Ok t /\
-                 load sh' to_real false false pfx d (Some c) [] = Ok t' /\
+    exists t t', load sh to_real fix3 false pfx d (Some f) env = Ok t /\
+                 load sh' to_real fix3 false pfx d (Some c) [] = Ok t' /\
                  Tidy (Map t) /\ Tidy (Map t') /\
                  forall p, view p (Map t) = view p (Map t').
 Proof.
-  intros sh sh' to_real pfx d c f env tenv Hs Hs' (H1 & H2 & H3 & H4) (G1 & G2 & G3 & G4) S.
-  destruct (load_meets_spec sh Hs to_real pfx d f env tenv H1 H2 H3 H4) as (t & Ht & Tt & Vt).
-  destruct (load_meets_spec sh' Hs' to_real pfx d c [] [] G1 G2 G3 G4) as (t' & Ht' & Tt' & Vt').
+  intros sh sh' fix3 to_real pfx d c f env tenv Hs Hs' D G S.
+  destruct (load_meets_spec_domain sh fix3 to_real pfx d f env tenv Hs D) as (t & Ht & Tt & Vt).
+  destruct (load_meets_spec_domain sh' fix3 to_real pfx d c [] [] Hs' G) as (t' & Ht' & Tt' & Vt').
+  destruct D as (H1 & H2 & H3 & H4).
   exists t, t'. splits; auto.
   intro p. rewrite Vt, Vt'. unfold spec_view. simpl env_view. rewrite njoin_none_r.
   rewrite <- (S p).
